@@ -530,12 +530,67 @@ static std::string box_text(Vec2 mn, Vec2 mx) {
     return "b:" + hex_i64(grid(mn.x)) + "," + hex_i64(grid(mn.y)) + "," + hex_i64(grid(mx.x)) + "," + hex_i64(grid(mx.y));
 }
 
+// Canonical text of a hull (identical algorithm in coq/BBox.v canon_pts): round to the 2^-20 grid, strictly convex
+// hull of the distinct grid points in exact integer arithmetic, drop corners within 8 grid units of the chord of
+// their neighbours (first such corner in order, repeated), sort.  Insensitive to 1e-16 perturbations.
+typedef std::pair<int64_t, int64_t> ZP;
+typedef __int128 I128;
+static I128 zcross(const ZP& o, const ZP& a, const ZP& b) {
+    return (I128)(a.first - o.first) * (I128)(b.second - o.second) - (I128)(a.second - o.second) * (I128)(b.first - o.first);
+}
+static std::vector<ZP> zchain(const std::vector<ZP>& l) {  // returned as a stack: last pushed first
+    std::vector<ZP> st;                                     // st.back() is the top
+    for (auto& p : l) {
+        while (st.size() >= 2 && !(zcross(st[st.size() - 2], st[st.size() - 1], p) > 0)) st.pop_back();
+        st.push_back(p);
+    }
+    return st;  // bottom .. top  ==  rev of the Coq list (top first)
+}
+static std::vector<ZP> zhull(const std::vector<ZP>& s) {
+    if (s.size() <= 1) return s;
+    std::vector<ZP> lo = zchain(s);
+    std::vector<ZP> r(s.rbegin(), s.rend());
+    std::vector<ZP> up = zchain(r);
+    // Coq: rev (tl lower) ++ rev (tl upper), lower/upper with the top first  ==  bottom..top without the top
+    std::vector<ZP> h(lo.begin(), lo.end() - 1);
+    h.insert(h.end(), up.begin(), up.end() - 1);
+    return h;
+}
+static bool znear(const ZP& a, const ZP& v, const ZP& b) {
+    I128 c = zcross(a, v, b);
+    if (c < 0) c = -c;
+    int64_t dx = b.first - a.first, dy = b.second - a.second;
+    if (dx < 0) dx = -dx;
+    if (dy < 0) dy = -dy;
+    return c <= (I128)8 * (I128)std::max(dx, dy);
+}
+static std::vector<ZP> zprune(std::vector<ZP> V) {
+    size_t fuel = V.size();
+    while (fuel-- > 0) {
+        if (V.size() <= 2) break;
+        bool removed = false;
+        size_t n = V.size();
+        for (size_t i = 0; i < n; i++) {
+            const ZP& prev = V[(i + n - 1) % n];
+            const ZP& next = V[(i + 1) % n];
+            if (znear(prev, V[i], next)) {
+                V.erase(V.begin() + (long)i);
+                removed = true;
+                break;
+            }
+        }
+        if (!removed) break;
+    }
+    return V;
+}
 static std::string hull_text(const std::vector<P2>& pts) {
-    std::vector<std::pair<int64_t, int64_t>> v;
+    std::vector<ZP> v;
     for (auto& p : pts) v.push_back(std::make_pair(grid(p.x), grid(p.y)));
     std::sort(v.begin(), v.end());
     v.erase(std::unique(v.begin(), v.end()), v.end());
-    std::string s = "h:" + std::to_string(pts.size()) + ":";
+    v = zprune(zhull(v));
+    std::sort(v.begin(), v.end());
+    std::string s = "h:";
     for (size_t i = 0; i < v.size(); i++) {
         if (i) s += "/";
         s += hex_i64(v[i].first) + "," + hex_i64(v[i].second);
@@ -1137,32 +1192,35 @@ static void make_scripts(Rng& g, const Desc& base, const std::vector<bool>& cell
     }
     destroy(b);
 
+    // fresh-cache script: every cell and every reference once through each entry point, either with an emptied
+    // shared cache (z b / z h / z B / z H) or through the overload without cache argument (fb / fh / fB / fH)
     std::vector<QueryD> s1;
     for (size_t i = 0; i < nc; i++) {
-        s1.push_back(mkq("z"));
-        s1.push_back(mkq("b", (int)i));
-        if (cell_hull_ok[i]) {
+        if (g.coin()) {
             s1.push_back(mkq("z"));
-            s1.push_back(mkq("h", (int)i));
-        }
-    }
-    for (size_t i = 0; i < nc; i++)
-        for (size_t j = 0; j < base.cells[i].refs.size(); j++) {
-            s1.push_back(mkq("z"));
-            s1.push_back(mkq("B", (int)i, (int)j));
-            if (ref_hull_ok[i][j]) {
+            s1.push_back(mkq("b", (int)i));
+            if (cell_hull_ok[i]) {
                 s1.push_back(mkq("z"));
-                s1.push_back(mkq("H", (int)i, (int)j));
+                s1.push_back(mkq("h", (int)i));
             }
+        } else {
+            s1.push_back(mkq("fb", (int)i));
+            if (cell_hull_ok[i]) s1.push_back(mkq("fh", (int)i));
         }
-    for (size_t i = 0; i < nc; i++) {
-        s1.push_back(mkq("fb", (int)i));
-        if (cell_hull_ok[i]) s1.push_back(mkq("fh", (int)i));
     }
     for (size_t i = 0; i < nc; i++)
         for (size_t j = 0; j < base.cells[i].refs.size(); j++) {
-            s1.push_back(mkq("fB", (int)i, (int)j));
-            if (ref_hull_ok[i][j]) s1.push_back(mkq("fH", (int)i, (int)j));
+            if (g.coin()) {
+                s1.push_back(mkq("z"));
+                s1.push_back(mkq("B", (int)i, (int)j));
+                if (ref_hull_ok[i][j]) {
+                    s1.push_back(mkq("z"));
+                    s1.push_back(mkq("H", (int)i, (int)j));
+                }
+            } else {
+                s1.push_back(mkq("fB", (int)i, (int)j));
+                if (ref_hull_ok[i][j]) s1.push_back(mkq("fH", (int)i, (int)j));
+            }
         }
     for (size_t i = 0; i < nc; i++) {
         for (size_t j = 0; j < base.cells[i].polys.size(); j++) s1.push_back(mkq("p", (int)i, (int)j));
@@ -1210,7 +1268,7 @@ static void emit_scenario(Out& out, Rng& g, Desc& base, const std::vector<bool>&
 
 static const double ROTS[10] = {0.5 * M_PI, M_PI, -0.5 * M_PI, 1.5 * M_PI, M_PI / 4, 3 * M_PI / 4, 0, 0, 0, 0.3};
 static double gen_rotation(Rng& g) {
-    if (g.coin()) return 0;
+    if (g.chance(55)) return 0;
     int k = (int)g.below(10);
     switch (k) {
         case 6: return atan2(3.0, 4.0);
@@ -1226,7 +1284,7 @@ static void gen_general(Out& out, Rng& g) {
     for (int attempt = 0; attempt < 50; attempt++) {
         d = Desc();
         d.tag = allow_explicit ? "genx" : "gen";
-        int nc = (int)g.range(3, 6);
+        int nc = (int)g.range(3, 5);
         std::vector<int> depth;
         for (int i = 0; i < nc; i++) {
             CellD c;
@@ -1583,7 +1641,7 @@ int main(int argc, char** argv) {
     for (auto& c : load_corpus(argc > 4 ? argv[4] : NULL)) run_case(out, c.first, c.second, false);
     Rng g(seed);
     deterministic(out);
-    long scenarios = thorough ? 2400 : 120;
+    long scenarios = thorough ? 400 : 40;   // the exact model run costs ~0.25 s per general case (3 cases per scenario)
     long nqh = thorough ? 6000 : 300;
     for (long i = 0; i < scenarios; i++) {
         if (g.chance(70)) gen_general(out, g);
